@@ -63,7 +63,8 @@ def main():
             demo_dst = os.path.join(wt, pkgdir, "zz_seed_demo_test.go")
             shutil.copy(demo_file, demo_dst)
             names = re.findall(r"^func (Test\w+)\(", text, re.M)
-            demo_cmd = "go test -count=1 -run '^(%s)$' ./%s" % ("|".join(names), pkgdir)
+            race = " -race" if any("-race" in str(c) for c in meta.get("commands_run", [])) else ""
+            demo_cmd = "go test -count=1%s -run '^(%s)$' ./%s" % (race, "|".join(names), pkgdir)
         res["demo_cmd"] = demo_cmd
         if demo_cmd:
             rc, out = sh(demo_cmd, wt)
